@@ -523,40 +523,32 @@ def model_state(t):
 
 
 HEADER = ("From Coq Require Import List.\nImport ListNotations.\nFrom PV Require Import Flow.Model.\n"
-          "Set Printing Depth 1000000.\nSet Printing Width 100000.\n")
+          "Set Printing Depth 1000000.\nSet Printing Width 100000.\n"
+          "Definition rs (p : prog) := option_map render_state (run p).\n")
 
 
-def run_model(kind, items, chunk=400, nproc=None):
+def run_model(kind, items, chunk=1500):
   """items: Coq terms (cond-valued expressions for kind='cond', progs for kind='state').
+  One `Eval vm_compute` per case (a single big list literal is an order of magnitude slower to elaborate).
   Returns the list of canonicalised model answers (None for a KeyError history)."""
   bodies = []
+  sizes = []
   for i in range(0, len(items), chunk):
     part = items[i:i + chunk]
-    if kind == "cond":
-      body = HEADER + "Eval vm_compute in [\n" + ";\n".join(part) + "\n].\n"
-    else:
-      body = (HEADER + "Definition cases : list prog := [\n" + ";\n".join(part) + "\n].\n"
-              "Eval vm_compute in (map (fun p => option_map render_state (run p)) cases).\n")
-    bodies.append(("c18_%s_%04d" % (kind, i // chunk), body))
-  old = common.NCPU
-  if nproc:
-    common.NCPU = nproc
-  try:
-    results = common.run_cases_parallel(bodies, timeout=900)
-  finally:
-    common.NCPU = old
+    fmt = "Eval vm_compute in (%s).\n" if kind == "cond" else "Eval vm_compute in (rs %s).\n"
+    bodies.append(("c18_%s_%04d" % (kind, i // chunk), HEADER + "".join(fmt % t for t in part)))
+    sizes.append(len(part))
+  results = common.run_cases_parallel(bodies, timeout=900)
   out = []
-  for (name, _), n in zip(bodies, [len(items[i:i + chunk]) for i in range(0, len(items), chunk)]):
+  for (name, _), n in zip(bodies, sizes):
     ok, txt = results[name]
     if not ok:
       raise common.BuildError("cases file %s failed:\n%s" % (name, txt[-2000:]))
     terms = common.parse_coq_eval(txt)
-    if len(terms) != 1:
-      raise common.BuildError("cases file %s: expected one Eval result" % name)
-    lst = parse_term(terms[0])
-    if not isinstance(lst, list) or len(lst) != n:
-      raise common.BuildError("cases file %s: expected %d answers" % (name, n))
-    for t in lst:
+    if len(terms) != n:
+      raise common.BuildError("cases file %s: expected %d answers, got %d" % (name, n, len(terms)))
+    for t in terms:
+      t = parse_term(t)
       out.append(model_cond(t) if kind == "cond" else model_opt(t, model_state))
   return out
 
